@@ -1,6 +1,7 @@
 package main
 
 import (
+	"verif/harness/internal/c06"
 	"verif/harness/internal/c14"
 	"verif/harness/internal/c13"
 	"verif/harness/internal/c01"
@@ -22,6 +23,8 @@ import (
 )
 
 func init() {
+	checks["C06"] = c06.Run
+	workers["c06"] = c06.Worker
 	checks["C14"] = c14.Run
 	workers["c14"] = c14.Worker
 	checks["C13"] = c13.Run
